@@ -517,7 +517,8 @@ func (w *world) bulkDeploy(n, spare int) {
 		_, err := srv.DeployErc20Contract(ctx, &cpctypes.MsgDeployErc20ContractRequest{Authority: key, Name: fmt.Sprintf("Scale%03d", j), Symbol: fmt.Sprintf("SC%03d", j), Decimals: uint32(j % 19), MinDenom: d})
 		require.NoError(w.t, err)
 	}
-	w.side.Count(fmt.Sprintf("scale:contracts-registered-before-the-steps>100=%v", len(k.GetAllCustomPrecompiledContractsMeta(ctx)) > 100))
+	reg := readReg(w.t, w.c.App, ctx) // raw store
+	w.side.Count(fmt.Sprintf("scale:contracts-registered-before-the-steps>100=%v", len(reg.Metas) > 100))
 }
 
 // ------------------------------------------------------------------ sending
